@@ -16,7 +16,7 @@ MLS = ("robust", "wire")
 HARNESSES = ()
 LEVEL = "proof"
 THEOREMS = ["C10_invalid_disconnects_sender_only", "C10_invalid_sender_gone_others_untouched", "C10_nothing_after_corruption",
-            "C10_invalid_bytes_invisible", "C10_isolation_partial", "C10_isolation", "C10_preauth_silent", "C10_incomplete_bounded",
+            "C10_invalid_bytes_invisible", "C10_isolation_bytes", "C10_valid_prefix", "C10_isolation", "C10_preauth_silent", "C10_incomplete_bounded",
             "C10_accept_gate", "C10_setup_assertion_holds", "C10_env_run_is_run", "C10_loader_nothing_after_corruption"]
 
 NWORKERS = min(6, max(2, (os.cpu_count() or 4) // 2))
@@ -230,7 +230,7 @@ def run(ctx):
         "attack_wall_s": round(time.time() - t0, 1),
         "explanation": "PROVED (Coq, all histories/schedules, on the model): a connection whose stream is found invalid is dropped and nothing but the effects of its valid "
                        "message prefix and of its disconnection reaches the bus core or any other connection (C10_invalid_disconnects_sender_only, C10_nothing_after_corruption, "
-                       "C10_isolation [byte-level form under load_local, message-level form unconditionally], C10_preauth_silent); incomplete connections never exceed "
+                       "C10_isolation_bytes [byte level: = the history in which the offender sent its valid message prefix and disconnected; unconditional, via Proofs/LoadLocal.v] and C10_isolation [message level: refinement to the ideal bus], C10_preauth_silent); incomplete connections never exceed "
                        "max_incomplete_connections and never outlive auth_timeout (C10_incomplete_bounded), the setup assertion cannot fail. "
                        "EXPLORED ONLY (harness, this run): absence of crashes / sanitizer reports / assertion failures / spinning in the C daemon, bounded latency of bystander "
                        "round trips, EOF at the offender, no canary of an undispatched message at any bystander; and daemon = model on every script (monitor trace, handshake bytes, EOF).",
